@@ -66,6 +66,8 @@ class Contract:
         self.may_raise_exprs = []
         self.check_frame = True
         self.hooks = {}
+        self.cuts = []
+        self.callsites = {}
         self.check_raises = False
         self.exc_ensures = []  # clauses that must hold at every exceptional exit
         self.trusted = False  # contract assumed, body not checked (external / out of reach)
@@ -104,8 +106,10 @@ class Contract:
         self.types[norm_path(path)] = {"arrspec": (ndim, shape, dtype, ext), "nonnull": nonnull}
         return self
 
-    def req(self, name, expr):
-        self.requires.append(Clause(name, expr))
+    def req(self, name, expr, props=()):
+        """props: the properties this precondition matters for (empty = all); obligations it generates at call
+        sites are only counted for those properties."""
+        self.requires.append(Clause(name, expr, props=props))
         return self
 
     def ens(self, name, expr, top=False, props=()):
@@ -140,6 +144,20 @@ class Contract:
         """Ghost update executed right after the statement whose source text (ast.unparse) equals stmt_text."""
         key = ast.unparse(ast.parse(stmt_text).body[0])
         self.hooks[key] = {k: ast.parse(v, mode="eval").body for k, v in updates.items()}
+        return self
+
+    def cut(self, stmt_prefix, var, spec, clauses, props=(), top=()):
+        """Statement contract ("cut"): right after the first statement whose source text starts with stmt_prefix,
+        the clauses are proved for the current value of local `var`, which is then replaced by a fresh value
+        of type `spec` about which only the clauses are known."""
+        self.cuts.append({"key": " ".join(stmt_prefix.split()), "var": var, "spec": spec, "props": tuple(props),
+                          "clauses": [Clause(k, v, top=(k in top)) for k, v in clauses.items()], "fired": False})
+        return self
+
+    def callsite(self, suffix, clauses, top=(), props=()):
+        """Obligations checked at every call of a modelled callable whose path ends with `suffix`
+        (the argument is bound to the name `arg`)."""
+        self.callsites[suffix] = [Clause(k, v, top=(k in top), props=props) for k, v in clauses.items()]
         return self
 
     def strings(self, **kw):
